@@ -370,7 +370,10 @@ func (a *SPS) ConstraintFlags() byte {
 
 // GetSARfromIDC - get Sample Aspect Ratio from IDC index
 func GetSARfromIDC(index uint) (uint, uint, error) {
-	if index < 1 || index > 16 {
+	if index == 0 {
+		return 0, 0, nil // Unspecified according to Table E-1
+	}
+	if index > 16 {
 		return 0, 0, fmt.Errorf("SAR bad index %d", index)
 	}
 	aspectRatioTable := [][]uint{
